@@ -31,11 +31,19 @@ func Make[T any](n int) *Chan[T] {
 
 func (c *Chan[T]) id() uint64 { return vsched.Ptr(unsafe.Pointer(c)) }
 
+// ensure seeds the scheduler's model of the channel the first time an
+// execution touches it. (The closed flag only matters for channels closed
+// before the scheduler started; it is shim state, invisible to the detector.)
+//
+//go:norace
 func (c *Chan[T]) ensure() uint64 {
 	id := c.id()
 	vsched.ChanEnsure(id, len(c.ch), cap(c.ch), c.closed)
 	return id
 }
+
+//go:norace
+func (c *Chan[T]) markClosed() { c.closed = true }
 
 func (c *Chan[T]) Send(v T) {
 	if vsched.Active {
@@ -63,7 +71,7 @@ func (c *Chan[T]) Close() {
 	if vsched.Active {
 		vsched.ChanClose(c.ensure())
 	}
-	c.closed = true
+	c.markClosed()
 	close(c.ch)
 }
 
